@@ -376,7 +376,10 @@ def native_replay_batch(src, workdir, prop, tests, release, tag="batch"):
             open(dst, "a").write("\n" + marker + "\n" + tsrc + "\n")
     env = dict(ENV)
     pb = os.path.join(KANI_HOME, "playback")
+    # -Aarithmetic_overflow: with a scaled-down constant (C04 cut) the repository's own unit tests contain constant expressions
+    # that the deny-by-default lint rejects at compile time; they are compiled (same test binary) but never run here
     flags = (["-Coverflow-checks=off", "-Cdebug-assertions=off", "-Copt-level=3"] if release else ["-Coverflow-checks=on"]) + [
+        "-Aarithmetic_overflow", "-Aunconditional_panic",
         "-Zunstable-options", "-Ztrim-diagnostic-paths=no", "-Zhuman_readable_cgu_names", "-Zalways-encode-mir", "--cfg=kani",
         "-Zcrate-attr=feature(register_tool)", "-Zcrate-attr=register_tool(kanitool)", "--force-warn", "unstable_features",
         "--sysroot", pb, "-L", pb + "/lib", "--extern", "force:kani",
@@ -396,7 +399,8 @@ def native_replay_batch(src, workdir, prop, tests, release, tag="batch"):
     for inst, tname, tsrc in tests:
         m = re.search(r"^test \S*%s \.\.\. (\w+)" % re.escape(tname), txt, re.M)
         if not m:
-            out[tname] = ("error", "\n".join(txt.splitlines()[-30:]))
+            why = "native replay build FAILED (could not compile the test binary)" if "could not compile" in txt else "generated test did not run"
+            out[tname] = ("error", why + ": " + " | ".join(l for l in txt.splitlines() if l.startswith("error"))[:400])
         elif m.group(1) == "FAILED":
             pm = re.search(r"---- \S*%s stdout ----\n(.*?)(?:\nnote:|\n\n|\Z)" % re.escape(tname), txt, re.S)
             msg = pm.group(1).strip() if pm else "test failed"
@@ -449,7 +453,7 @@ def native_run_tests(src, workdir, filt, tag):
     returns the log text"""
     env = dict(ENV)
     pb = os.path.join(KANI_HOME, "playback")
-    flags = ["-Coverflow-checks=on", "-Zunstable-options", "-Ztrim-diagnostic-paths=no", "-Zhuman_readable_cgu_names", "-Zalways-encode-mir",
+    flags = ["-Coverflow-checks=on", "-Aarithmetic_overflow", "-Aunconditional_panic", "-Zunstable-options", "-Ztrim-diagnostic-paths=no", "-Zhuman_readable_cgu_names", "-Zalways-encode-mir",
              "--cfg=kani", "-Zcrate-attr=feature(register_tool)", "-Zcrate-attr=register_tool(kanitool)", "--force-warn", "unstable_features",
              "--sysroot", pb, "-L", pb + "/lib", "--extern", "force:kani", "--extern", "noprelude,nounused:std=" + pb + "/lib/libstd.rlib"]
     env["CARGO_ENCODED_RUSTFLAGS"] = "\x1f".join(flags)
